@@ -201,6 +201,13 @@ def run_case(case):
         with under_test("load_ds(create_new=True) on the existing file"):
             got2 = x.load_ds(path, engine=engine, create_new=True)
         compare(orig, got2, netcdf, "load_ds(create_new=True)")
+        early = early_ref = None
+        if not netcdf and case.get("chunks") is not None:
+            # (the pickling engine: asked not to load into memory; the file
+            # is rewritten further down)
+            with under_test("load_ds(load_to_mem=False)"):
+                early = x.load_ds(path, engine=engine, load_to_mem=False)
+            early_ref = orig
         # lazily
         if netcdf and case.get("chunks") is not None:
             ch = case["chunks"]
@@ -270,6 +277,18 @@ def run_case(case):
             ref = both
         else:
             ref = got
+
+        if early is not None:
+            # a dataset loaded before is a value of its own: saving something
+            # else under the same name later does not reach it
+            with under_test("save_ds over the same name"):
+                x.save_ds(ref.copy(deep=True) * 0 if all(
+                    ref[v].dtype.kind in "fiuc" for v in ref.data_vars)
+                    else ref.isel({d: slice(0, 1) for d in ref.dims}),
+                    path, engine=engine)
+                x.save_ds(ref.copy(deep=True), path, engine=engine)
+            compare(early_ref, early, netcdf,
+                    "a dataset loaded (load_to_mem=False) before later saves")
 
         # a new-session harvester on the same name sees the same data
         with under_test("Harvester(data_name).full_ds"):
